@@ -10,6 +10,8 @@ use routinator::payload::{PayloadSnapshot, ValidationReport};
 use routinator::slurm::LocalExceptions;
 use crate::gen::Published;
 
+pub mod server;
+
 static INIT: Once = Once::new();
 
 /// Initialises logging of the routinator crate once.  Logging is off unless
